@@ -10,9 +10,11 @@ RULE = ("one-pixel-wide skeleton images: square lattices (four-fold junction pix
         "(three-fold Y junction pixels, angles 90/135/135 degrees), 4..56 cells, minimal by construction, and every shipped skeleton, each under the 8 symmetries of the square, "
         "padding and mirror_y; ne in 3..9; non-trivial = at least 4 cells; distinct = (image, symmetry, ne)")
 TRUSTED = ["cv2.findContours is a black box: no model of it is attempted; what ForSys does with the contours (vertex interning by pixel position, "
-           "one cell per contour) is modelled in Model/Skeleton.v and compared on the actual OpenCV output",
+           "one cell per contour, mesh edges, border / external flags, the large-area filter) is modelled in Model/Skeleton.v and compared on the actual OpenCV "
+           "output; the contours and the hierarchy handed to the filter model and to the D26 predicate are traced by the harness with the parser's own OpenCV call",
            "expected topology of the generated images comes from the lattice generator, not from forsys"]
-ASSUMPTIONS = ["generated images follow the convention of the shipped ones: white frame on the image border, skeleton not touching it"]
+ASSUMPTIONS = ["generated images follow the convention of the shipped ones: white frame on the image border, skeleton not touching it; framed images are also padded "
+               "literally (frame inside the picture), where tissues of few cells fall under known finding D26"]
 TESTED_NOT_PROVED = ["one cell per enclosed region, border flags, internal interfaces, junction count and their equality under the 8 symmetries / "
                      "padding / mirror_y are evaluated by the oracle (they depend on OpenCV's contour tracing)",
                      "rasterised oblique Voronoi tissues are not generated (no thinning library is installed); oblique lines are covered by the shipped images only"]
